@@ -100,6 +100,19 @@ def struct_eq(ctx, a, b):
     return v_eq(a, b)
 
 
+@model(r'^<BindingIdent as Deref(Mut)?>::deref(_mut)?$')
+def m_binding_ident_deref(it, ctx, a, m, f):
+    b = deref(a[0])
+    return Ref(b.fields, b.names.index('id'))
+
+
+@model(r'^Span::dummy_with_cmt$')
+def m_dummy_with_cmt(it, ctx, a, m, f):
+    n = ctx.__dict__.get('dummy_cnt', 0xFFFF0000)
+    ctx.dummy_cnt = n + 1
+    return Adt('Span', None, [n, n], ['lo', 'hi'])
+
+
 # ---------------------------------------------------------------- drops / no-ops / identity conversions
 @model(r' as Drop>::drop$|^mem::drop::|^mem::forget|^must_use::|^hint::')
 def m_nop(it, ctx, a, m, f):
@@ -813,6 +826,85 @@ def m_iset_contains(it, ctx, a, m, f):
         if ctx.decide(struct_eq(ctx, a[1], y)):
             return True
     return False
+
+
+@model(r'^IndexSet::<.*>::(pop)$')
+def m_iset_pop(it, ctx, a, m, f):
+    v = L(a[0])
+    return Some(v.pop()) if v else NoneV()
+
+
+@model(r'<IndexSet<.*> as Extend<.*>>::extend::|^IndexSet::<.*>::extend::')
+def m_iset_extend(it, ctx, a, m, f):
+    dst = L(a[0])
+    for x in L(a[1]):
+        _iset_insert(ctx, dst, x)
+    return []
+
+
+@model(r'^IndexSet::<.*>::(iter|into_iter)$')
+def m_iset_iter(it, ctx, a, m, f):
+    v = L(a[0])
+    return Iter(refs_of(v) if m.group(1) == 'iter' else v)
+
+
+@model(r'^IndexMap::<.*>::(with_capacity)$')
+def m_imap_new(it, ctx, a, m, f):
+    return []
+
+
+@model(r'^IndexMap::<.*>::insert$')
+def m_imap_insert(it, ctx, a, m, f):
+    mp = L(a[0])
+    for e in mp:
+        if ctx.decide(struct_eq(ctx, e[0], a[1])):
+            old = e[1]; e[1] = a[2]
+            return Some(old)
+    mp.append([a[1], a[2]])
+    return NoneV()
+
+
+@model(r'^IndexMap::<.*>::iter_mut$')
+def m_imap_iter_mut(it, ctx, a, m, f):
+    return Iter([[Ref(e, 0), Ref(e, 1)] for e in L(a[0])])
+
+
+@model(r'^IndexMap::<.*>::iter$')
+def m_imap_iter(it, ctx, a, m, f):
+    return Iter([[Ref(e, 0), Ref(e, 1)] for e in L(a[0])])
+
+
+@model(r'^slice::<impl \[.*\]>::contains$')
+def m_slice_contains(it, ctx, a, m, f):
+    for y in L(a[0]):
+        if ctx.decide(struct_eq(ctx, y, a[1])):
+            return True
+    return False
+
+
+@model(r' as EqIgnoreSpan>::eq_ignore_span$')
+def m_eq_ignore_span(it, ctx, a, m, f):
+    return eq_ignore_span(ctx, a[0], a[1])
+
+
+def eq_ignore_span(ctx, a, b):
+    a = deref(a); b = deref(b)
+    if isinstance(a, Adt) and isinstance(b, Adt):
+        if a.ty == 'Span' and b.ty == 'Span':
+            return True
+        if a.variant != b.variant or len(a.fields) != len(b.fields):
+            return False
+        rs = []
+        for i, (x, y) in enumerate(zip(a.fields, b.fields)):
+            if a.names and a.names[i] == 'ctxt':
+                continue            # swc: SyntaxContext is ignored by EqIgnoreSpan
+            rs.append(eq_ignore_span(ctx, x, y))
+        return b_and(*rs)
+    if isinstance(a, list) and isinstance(b, list):
+        if len(a) != len(b):
+            return False
+        return b_and(*[eq_ignore_span(ctx, x, y) for x, y in zip(a, b)])
+    return struct_eq(ctx, a, b)
 
 
 # ---------------------------------------------------------------- BTreeMap<&str, Ident> (vue imports)
